@@ -141,7 +141,12 @@ def percentile(a, q, method="linear", internal_method="default", **kwargs):
         token = tokenize(a, q, method)
 
         dtype = a.dtype
-        if np.issubdtype(dtype, np.integer):
+        # (the methods that pick a data point keep integers, as in NumPy)
+        if np.issubdtype(dtype, np.integer) and method not in (
+            "lower",
+            "higher",
+            "nearest",
+        ):
             dtype = (array_safe([], dtype=dtype, like=meta_from_array(a)) / 0.5).dtype
         meta = meta_from_array(a, dtype=dtype)
 
